@@ -68,7 +68,7 @@ CHECKS['C19'] = dict(
           'greater than the value, none when there is none — including the code\'s early exits and its "never stop at position '
           '1" rule), match_desc (strictly descending keys), match_exact (the FIRST key passing the equality / wildcard test, any '
           'order), wildcard_rules (* ? and literals), lookup_is_index_of_match, vlookup_beyond (#REF!), index_spec, '
-          'countif_is_filter, sumif_selected, sat_same_type. The model XL.Model.Look follows xmatch, _index, xlookup, '
+          'countif_is_filter, sumif_selected, sat_same_type; matchPos_exact / matchPos_exact_first / matchPos_exact_none (exact match on the whole key vector: the position holds the first key of the value\'s type that passes the test, #N/A iff none), selected_eq_filter, selected_self, averageIf_none. The model XL.Model.Look follows xmatch, _index, xlookup, '
           'args_parser_hlookup and _xfilter (criterion parsing: operator prefix, wildcards with ~ escapes, number / logical / '
           'error operands; typed comparison; numeric text). The check evaluates MATCH (3 modes, wildcards), INDEX, LOOKUP, '
           'VLOOKUP, HLOOKUP, COUNTIF, SUMIF, AVERAGEIF through compiled formulas on generated vectors/tables (sorted for the '
@@ -276,7 +276,7 @@ CHECKS['C14'] = dict(
 CHECKS['C15'] = dict(
     text=('Lean 4 theorems (XL.Props.C15): sub_model_equals_full — a model that keeps every definition relevant to an '
           'address reachable from an output (the cell there or an array formula spilling over it) gives the output the '
-          'same value as the full model, for every workbook, keep-set and depth; restrict_all and restrict_idempotent '
+          'same value as the full model, for every workbook, keep-set and depth; closed_mono, sub_models_agree, union_of_outputs (every choice of outputs gives the same values); restrict_all and restrict_idempotent '
           '(completing a complete model changes nothing). The check writes random multi-sheet workbooks with names, '
           'array formulas and whole-column references to .xlsx, compares from_ranges(*outs).finish().calculate() with '
           'loads(file).finish().calculate() on every requested output (cells and rectangles), the full model with the '
@@ -346,7 +346,7 @@ CHECKS['C13'] = dict(
 CHECKS['C16'] = dict(
     text=('Lean 4 theorems (XL.Props.C16): write_placement — pairing the row-major enumeration of a rectangle\'s cells with the '
           'row-major enumeration of a value matrix of the same shape puts v[i][j] at (r1+i, c1+j), for every rectangle and '
-          'matrix (zip/flatten induction); written_cell, untouched_outside (nothing outside the rectangle is paired); '
+          'matrix (zip/flatten induction); written_cell, untouched_outside (nothing outside the rectangle is paired); writeCells_untouched / writeCells_solved (all nodes written in sequence, overlapping nodes that agree); '
           'conv_spec (EMPTY and empty text -> empty cell, error -> its text). PARTIAL: openpyxl serialisation, the file '
           'system and case-insensitive book/sheet lookup cannot be reached by Lean; the check writes solutions of random '
           'workbooks (all value kinds, several sheets, array-formula ranges, overridden inputs) into fresh books, into the '
